@@ -344,8 +344,13 @@ def logpdf(prior, v):
             return a * math.log(b) - math.lgamma(a) + (a - 1) * math.log(v) - b * v
         if kind == "beta":
             a, b = prior[1], prior[2]
-            if v <= 0 or v >= 1:
+            if v < 0 or v > 1:
                 return -math.inf
+            if v == 0 or v == 1:
+                # closed support: the density has a finite positive value at an end point exactly when the exponent there is 0
+                if (v == 0 and a != 1) or (v == 1 and b != 1):
+                    return -math.inf
+                return math.lgamma(a + b) - math.lgamma(a) - math.lgamma(b)
             return (a - 1) * math.log(v) + (b - 1) * math.log(1 - v) - (math.lgamma(a) + math.lgamma(b) - math.lgamma(a + b))
         if kind == "log-uniform":
             lo, hi = prior[1], prior[2]
